@@ -161,7 +161,7 @@ def run(ctx):
             if t2 != t1:
                 ctx.fail(name, 'the table of a newly built gate depends on what was done in place to the map of an earlier gate', dict(first=t1, second=t2))
     # rejected input
-    for k in list(range(-3, 0)) + list(range(24, 30)) + [100, -24, 10 ** 6]:
+    for k in list(range(-3, 0)) + list(range(24, 30)) + [100, -24, 10 ** 6, 0.5, 2.5, 23.9, -0.5, '3', '07', None]:
         try:
             CI.C(k, 0); got = 'no error'
         except ValueError:
@@ -170,7 +170,7 @@ def run(ctx):
             got = impl.errname(e)
         ctx.case(('C-bad', k), True)
         if got != 'err ValueError':
-            ctx.fail('C', 'index %d not rejected with ValueError (%s)' % (k, got), dict(k=k))
+            ctx.fail('C', 'index %r not rejected with ValueError (%s)' % (k, got), dict(k=repr(k)))
     for name, nq in (('H', 1), ('S', 1), ('X', 1), ('Y', 1), ('Z', 1), ('CNOT', 2)):
         for qs in ((), (0, 1, 2), (0, 1) if nq == 1 else (0,)):
             try:
